@@ -128,7 +128,7 @@ def run(ctx):
                     ctx.finding("C13.G1", lf, "use-before-guard:%s" % t2.get("name"), "the claims reach %s on a path that has not passed the guard" % (t2.get("resolved") or t2.get("callee")), line=t2.get("line"))
         if lf is fn:
             ctx.floor("C13.G1", "consumers of the claims after the guard", nuse, 1)
-    judge_guard(ctx, fx, g)
+    judge_guard(ctx, fx, fx.view(g.name))
     table_agreement(ctx, fx, g)
 
 
